@@ -68,13 +68,17 @@ type vfWorld struct {
 
 	pFailT, pFailF, pFlip bool
 	qBad, qAdd            int64
+	zVal                  int64
+	zFail                 bool
 	opsLoaded             bool
+	failValue             bool // failing custom operators return a zero value together with the error
 
 	log        []vfRec
 	logOn      bool
 	logBuiltin bool // reference: also record applications of built-in operators
 	pCalls     int
 	qCalls     int
+	zCalls     int
 	useAvail   bool
 	mask2      bool // availability is the larger mask M′ ⊇ M
 	completing bool // unavailable variables read their completion value
@@ -130,6 +134,7 @@ func newWorld(tree *refNode, suffix string) *vfWorld {
 	}
 	w.ops["p"] = w.opP
 	w.ops["q"] = w.opQ
+	w.ops["z"] = w.opZ
 	w.markBoolCtx(tree, false)
 	return w
 }
@@ -189,6 +194,10 @@ func (w *vfWorld) loadOps() {
 	w.opsLoaded = true
 	w.pFlip = vfBool("p.flip" + w.suffix)
 	w.qAdd = vfInt64("q.add" + w.suffix)
+	w.zVal = vfInt64("z.val" + w.suffix)
+	if w.opsFail {
+		w.zFail = vfBool("z.fail" + w.suffix)
+	}
 	if w.opsFail {
 		w.pFailT = vfBool("p.failT" + w.suffix)
 		w.pFailF = vfBool("p.failF" + w.suffix)
@@ -281,6 +290,9 @@ func (w *vfWorld) opP(_ *Ctx, ps []Value) (Value, error) {
 		if (b && w.pFailT) || (!b && w.pFailF) {
 			rec.failed = true
 			w.record(rec)
+			if w.failValue {
+				return false, errVfP
+			}
 			return nil, errVfP
 		}
 	}
@@ -312,12 +324,35 @@ func (w *vfWorld) opQ(_ *Ctx, ps []Value) (Value, error) {
 	if w.opsFail && x == w.qBad {
 		rec.failed = true
 		w.record(rec)
+		if w.failValue {
+			return int64(0), errVfQ
+		}
 		return nil, errVfQ
 	}
 	res := x + w.qAdd
 	rec.res = res
 	w.record(rec)
 	return res, nil
+}
+
+// custom operator z: no operands → int, one arbitrary value per world, may fail
+func (w *vfWorld) opZ(_ *Ctx, ps []Value) (Value, error) {
+	w.loadOps()
+	w.zCalls++
+	rec := vfRec{kind: recCall, name: "z", nargs: len(ps)}
+	if len(ps) != 0 {
+		rec.failed = true
+		w.record(rec)
+		return nil, errVfArity
+	}
+	if w.opsFail && w.zFail {
+		rec.failed = true
+		w.record(rec)
+		return nil, errVfQ
+	}
+	rec.res = w.zVal
+	w.record(rec)
+	return w.zVal, nil
 }
 
 // ---------------------------------------------------------------------------
